@@ -59,7 +59,9 @@ def asan_so():
 
 def build_lib(work, mode="asan"):
     """build libh4v.so from /repo's current working tree into the work directory"""
-    out = work.sub("build_" + mode)
+    if os.environ.get("VERIF_LIBMODE"):        # e.g. "cov": gcov build into a fixed directory (bin/coverage.sh)
+        mode = os.environ["VERIF_LIBMODE"]
+    out = os.environ.get("VERIF_LIBDIR") or work.sub("build_" + mode)
     t = time.time()
     p = subprocess.run([os.path.join(VERIF, "bin", "build_lib.sh"), out, mode], capture_output=True, text=True,
                        env=dict(os.environ, VERIF_REPO=REPO))
